@@ -87,7 +87,7 @@ def run_unit(args):
     for s in S[lo:hi]:
         seen = set()
         hook = getattr(s.hook, "__name__", "?")
-        for b in itertools.chain(specwords.cases_for_spec(isa, s, e, d.maxlen, tier), specwords.prefixed_modrm_cases(isa, s, tier)):
+        for b in itertools.chain(specwords.cases_for_spec(isa, s, e, d.maxlen, tier), specwords.prefixed_modrm_cases(isa, s, tier), specwords.adrsize_cases(isa, s, tier)):
             if b in seen or not b:
                 continue
             seen.add(b)
